@@ -397,15 +397,22 @@ class vDDDLists:
             dt_list = [dt_list]
         vDDD = []
         tzid = None
+        value = None
         for dt in dt_list:
             dt = vDDDTypes(dt)
             vDDD.append(dt)
             if 'TZID' in dt.params:
                 tzid = dt.params['TZID']
+            if 'VALUE' in dt.params:
+                value = dt.params['VALUE']
 
+        self.params = Parameters()
+        if value:
+            # dates and periods are not the default value type (DATE-TIME)
+            self.params['VALUE'] = value
         if tzid:
             # NOTE: no support for multiple timezones here!
-            self.params = Parameters({'TZID': tzid})
+            self.params['TZID'] = tzid
         self.dts = vDDD
 
     def to_ical(self):
